@@ -1069,10 +1069,15 @@ func c05Specs(r *zv.Run) []c05Spec {
 		}
 	}
 	if r.Thorough() {
-		for _, k := range []int{8, 16, 32, 64} {
+		// the model evaluation in Coq is quadratic in the width (a shard of 64-wide squares did not finish within the
+		// 50-minute shard limit): width 64 is covered by the designed wide squares below only, width 32 by three paddings
+		for _, k := range []int{8, 16} {
 			for _, pad := range []int{0, 1, k - 1, k, k + 1, k*k - 1, rng.Intn(k * k), rng.Intn(k * k)} {
 				add(k, pad)
 			}
+		}
+		for _, pad := range []int{0, 33, rng.Intn(32 * 32)} {
+			add(32, pad)
 		}
 	} else {
 		// the model evaluation in Coq is quadratic in the width: the quick tier keeps the big squares few
